@@ -250,9 +250,9 @@ HasUint(v) == Exists(v, LAMBDA x : x[1] = "uint")
 HasStrKey(v) == Exists(v, LAMBDA x : x[1] = "hash" /\ \E i \in 1..Len(x[3]) : x[3][i][1][1] = "str")
 HasBadEscape(cc, v) == Exists(v, LAMBDA x : x[1] = "str" /\ StrHas(cc, x[2], JsonBadClass))
 InUintGap(n) == MagAtLeast(n, Int63p) /\ ~MagAtLeast(n, UInt64p)
+(* the float half of this defect was repaired (commit dc3e40b): only uint64 values remain *)
 HasUintGapNumber(v) ==
-    Exists(v, LAMBDA x : \/ x[1] = "flt" /\ x[2] = "fin" /\ ~x[6] /\ InUintGap(NumVal(x))
-                         \/ x[1] = "uint" /\ InUintGap(NumVal(x)))
+    Exists(v, LAMBDA x : x[1] = "uint" /\ InUintGap(NumVal(x)))
 
 (* ------------------------------------------------------------------ *)
 (* C12: identity, and the known wrong behaviours of printer + reader. *)
